@@ -1,5 +1,5 @@
 SPECIFICATION Spec
-CONSTANTS SelfNamed = FALSE Lean = FALSE DirSet = {1, 2, 3} MaxDefs = 2 Rich = FALSE Entry = "files" Bodies = {"ok","print","assertfail","garbage","nomode"} AsFoundTwoObjects = FALSE AsFoundPrintPath = FALSE
+CONSTANTS SelfNamed = FALSE Lean = FALSE DirSet = {1, 2, 3} MaxDefs = 2 Rich = FALSE Entry = "files" Bodies = {"ok","print","assertfail","garbage","nomode"} Dups = FALSE AsFoundTwoObjects = FALSE AsFoundPrintPath = FALSE
 INVARIANT ResolvesExactly
 INVARIANT BadReferenceFails
 INVARIANT AcyclicWhenOk
